@@ -352,6 +352,41 @@ def key_str(key):
     return str(key)
 
 
+def canon(n, depth=0):
+    """structural rendering: macro names only for constants (stable under macro re-wrapping)"""
+    if n is None:
+        return ""
+    if not isinstance(n, dict):
+        return str(n)
+    if depth > 12:
+        return "..."
+    k = n.get("k")
+    d = depth + 1
+    if k == "pre":
+        if n.get("m") and isinstance(n.get("e"), dict) and ("cv" in n["e"] or "fv" in n["e"]):
+            return n["m"][-1]
+        return canon(n.get("e"), d)
+    if ("cv" in n or "fv" in n) and k != "ref":
+        return n["m"][-1] if n.get("m") else str(n.get("cv", n.get("fv")))
+    if k == "ref":
+        return n["n"]
+    if k == "mem":
+        return canon(n["b"], d) + ("->" if n.get("arrow") else ".") + n["f"]
+    if k == "idx":
+        return "%s[%s]" % (canon(n["b"], d), canon(n["i"], d))
+    if k == "un":
+        return n["op"] + canon(n["e"], d)
+    if k in ("bin", "asg"):
+        return "%s %s %s" % (canon(n["a"], d), n["op"], canon(n["b"], d))
+    if k == "cond":
+        return "(%s ? %s : %s)" % (canon(n["c"], d), canon(n["a"], d), canon(n["b"], d))
+    if k == "cast":
+        return canon(n["e"], d)
+    if k == "call":
+        return "%s(%s)" % (n.get("fn") or "(*fp)", ", ".join(canon(a, d) for a in n.get("args", [])))
+    return show(n, depth)
+
+
 def show(n, depth=0):
     """compact source-like rendering of an expression tree."""
     if n is None:
